@@ -1,6 +1,7 @@
 package rules
 
 import (
+	"fmt"
 	"go/token"
 	"go/types"
 	"sort"
@@ -1393,6 +1394,18 @@ func (c *Ctx) c18CSS() {
 		})
 	}
 	if !guardedWriter && nGuardedRet == 0 {
+		// the filter as a table of transitions
+		if okT, whyT, foundT := c.c18CSSTable(cssFilter, allowedG, isTokenValue); foundT {
+			if okT {
+				guardedWriter = true
+				r.Count("C18/CSS: "+whyT, 1)
+			} else {
+				probs = append(probs, whyT)
+				guardedWriter = true
+			}
+		}
+	}
+	if !guardedWriter && nGuardedRet == 0 {
 		probs = append(probs, "no state writes a property identifier under the allow-list lookup: either nothing or everything is copied")
 	}
 	// error token → ""
@@ -2549,4 +2562,372 @@ func (c *Ctx) c18DeclarationEnds() {
 		}
 	}
 	r.Count(rule+": ';' edges in copying states", n)
+}
+
+// cssAgg is a constant aggregate (array/struct built by composite literals) read back from SSA.
+type cssAgg struct {
+	k     int64
+	elems map[int64]*cssAgg
+}
+
+// evalConstAgg reads the value of v when it is an integer constant or a composite literal of
+// such (go/ssa builds those through locals: field/element stores into an Alloc, then a load).
+func evalConstAgg(v ssa.Value, depth int) *cssAgg {
+	if depth > 6 {
+		return nil
+	}
+	v = eng.StripConv(v)
+	if k, ok := eng.ConstInt(v); ok {
+		return &cssAgg{k: k}
+	}
+	ld, ok := v.(*ssa.UnOp)
+	if !ok || ld.Op != token.MUL {
+		return nil
+	}
+	al, ok := ld.X.(*ssa.Alloc)
+	if !ok || al.Referrers() == nil {
+		return nil
+	}
+	out := &cssAgg{elems: map[int64]*cssAgg{}}
+	for _, ref := range *al.Referrers() {
+		var key int64
+		var addr ssa.Value
+		switch x := ref.(type) {
+		case *ssa.FieldAddr:
+			key, addr = int64(x.Field), x
+		case *ssa.IndexAddr:
+			k, isK := eng.ConstInt(x.Index)
+			if !isK {
+				return nil
+			}
+			key, addr = k, x
+		default:
+			continue
+		}
+		if addr.Referrers() == nil {
+			continue
+		}
+		for _, r2 := range *addr.Referrers() {
+			if st, isSt := r2.(*ssa.Store); isSt && st.Addr == addr {
+				e := evalConstAgg(st.Val, depth+1)
+				if e == nil {
+					return nil
+				}
+				out.elems[key] = e
+			}
+		}
+	}
+	return out
+}
+
+// evalConstAggAt reads the constant aggregate that fn builds in place at address base: the
+// stores through element and field addresses derived from base.
+func evalConstAggAt(base ssa.Value, fn *ssa.Function, depth int) *cssAgg {
+	if depth > 6 {
+		return nil
+	}
+	out := &cssAgg{elems: map[int64]*cssAgg{}}
+	bad := false
+	eng.EachInstr(fn, func(in ssa.Instruction) {
+		var key int64
+		var addr ssa.Value
+		switch x := in.(type) {
+		case *ssa.FieldAddr:
+			if x.X != base {
+				return
+			}
+			key, addr = int64(x.Field), x
+		case *ssa.IndexAddr:
+			if x.X != base {
+				return
+			}
+			k, isK := eng.ConstInt(x.Index)
+			if !isK {
+				bad = true
+				return
+			}
+			key, addr = k, x
+		default:
+			return
+		}
+		stored := false
+		if addr.Referrers() != nil {
+			for _, r2 := range *addr.Referrers() {
+				if st, isSt := r2.(*ssa.Store); isSt && st.Addr == addr {
+					if e := evalConstAgg(st.Val, depth+1); e != nil {
+						out.elems[key] = e
+						stored = true
+					} else {
+						bad = true
+					}
+				}
+			}
+		}
+		if !stored {
+			if e := evalConstAggAt(addr, fn, depth+1); e != nil && len(e.elems) > 0 {
+				out.elems[key] = e
+			}
+		}
+	})
+	if bad {
+		return nil
+	}
+	return out
+}
+
+// c18CSSTable decides the allow-list gate for a CSS filter written as a transition table:
+//
+//	tr := transitions[state][classify(t)]; if tr.emit == emitValue { write t.Value }; state = tr.next
+//
+// The table is a package-level constant aggregate; classify returns one class only on the edge
+// where the allow-list lookup succeeded. The gate holds when every cell that emits the token's
+// text is either in the column of that class, or in a state that can only be entered through that
+// column (or from such a state). found is false when the filter has no such shape.
+func (c *Ctx) c18CSSTable(filter *ssa.Function, allowedG *ssa.Global, isTokenValue func(ssa.Value) bool) (ok bool, why string, found bool) {
+	p := c.P
+	for g := range p.SyncReach(filter) {
+		if eng.FuncPkgPath(g) != eng.FuncPkgPath(filter) {
+			continue
+		}
+		var verdictOK, verdictFound bool
+		var verdictWhy string
+		eng.EachInstr(g, func(in ssa.Instruction) {
+			if verdictFound {
+				return
+			}
+			call, isCall := in.(*ssa.Call)
+			if !isCall || len(call.Call.Args) < 2 || !isTokenValue(call.Call.Args[1]) {
+				return
+			}
+			// the emit test that guards the write: L.f == K with L a local copy of a table cell
+			for _, b := range g.Blocks {
+				for k := 0; k < len(b.Succs) && len(b.Succs) == 2; k++ {
+					rel, okR := eng.EdgeRel(b, k)
+					if !okR || rel.Op != token.EQL || !eng.EdgeDominates(b, k, call.Block()) {
+						continue
+					}
+					emitK, isK := eng.ConstInt(rel.Y)
+					ld, isLd := eng.StripConv(rel.X).(*ssa.UnOp)
+					if !isK || !isLd {
+						continue
+					}
+					fa, isFA := ld.X.(*ssa.FieldAddr)
+					if !isFA {
+						continue
+					}
+					cellLocal, isAl := fa.X.(*ssa.Alloc)
+					if !isAl {
+						continue
+					}
+					emitField := int64(fa.Field)
+					// what the local holds: *(&(&G[s])[cls])
+					var cellAddr *ssa.IndexAddr
+					for _, st := range eng.CellStores(cellLocal) {
+						if l2, ok2 := st.Val.(*ssa.UnOp); ok2 {
+							if ia, ok3 := l2.X.(*ssa.IndexAddr); ok3 {
+								cellAddr = ia
+							}
+						}
+					}
+					if cellAddr == nil {
+						continue
+					}
+					rowAddr, isRow := cellAddr.X.(*ssa.IndexAddr)
+					if !isRow {
+						continue
+					}
+					tbl, isG := rowAddr.X.(*ssa.Global)
+					if !isG {
+						continue
+					}
+					clsCall, isCls := eng.StripConv(cellAddr.Index).(*ssa.Call)
+					stPhi, isPhi := eng.StripConv(rowAddr.Index).(*ssa.Phi)
+					if !isCls || !isPhi {
+						continue
+					}
+					classify := eng.StaticCallee(clsCall.Common())
+					if classify == nil || len(classify.Blocks) == 0 {
+						continue
+					}
+					verdictFound = true
+					// the state variable: an initial constant, otherwise the cell's next field
+					s0 := int64(-1)
+					nextField := int64(-1)
+					for _, e := range stPhi.Edges {
+						if kk, isC := eng.ConstInt(e); isC {
+							s0 = kk
+							continue
+						}
+						if l3, ok3 := eng.StripConv(e).(*ssa.UnOp); ok3 {
+							if f3, ok4 := l3.X.(*ssa.FieldAddr); ok4 && f3.X == ssa.Value(cellLocal) {
+								nextField = int64(f3.Field)
+								continue
+							}
+						}
+						verdictWhy = "the state variable is assigned something other than the table's next field"
+						return
+					}
+					if s0 < 0 || nextField < 0 {
+						verdictWhy = "the state variable's initial value or its update from the table was not found"
+						return
+					}
+					// the table
+					var tab *cssAgg
+					clean := true
+					var pkgFns []*ssa.Function
+					for _, mem := range tbl.Pkg.Members {
+						if mf, isF := mem.(*ssa.Function); isF {
+							pkgFns = append(pkgFns, eng.WithAnons(mf)...)
+						}
+					}
+					for _, mfn := range pkgFns {
+						mfn := mfn
+						eng.EachInstr(mfn, func(x ssa.Instruction) {
+							if st, isSt := x.(*ssa.Store); isSt && st.Addr == ssa.Value(tbl) {
+								if mfn.Name() == "init" && tab == nil {
+									tab = evalConstAgg(st.Val, 0)
+								} else {
+									clean = false
+								}
+							}
+							if ia, isIA := x.(*ssa.IndexAddr); isIA && ia.X == ssa.Value(tbl) && mfn.Name() != "init" && ia != rowAddr {
+								clean = false
+							}
+						})
+					}
+					if tab == nil && clean {
+						// initialised in place: init stores through &G[i], &G[i][j], &G[i][j].f
+						if initFn := tbl.Pkg.Func("init"); initFn != nil {
+							tab = evalConstAggAt(tbl, initFn, 0)
+						}
+					}
+					if tab == nil || !clean || tab.elems == nil {
+						verdictWhy = "the transition table is not a constant aggregate written only by its initialiser"
+						return
+					}
+					// the class that stands for "identifier on the allow-list"
+					allowed := int64(-1)
+					other := map[int64]bool{}
+					eng.EachInstr(classify, func(x ssa.Instruction) {
+						rt, isRt := x.(*ssa.Return)
+						if !isRt || len(rt.Results) != 1 {
+							return
+						}
+						kk, isC := eng.ConstInt(rt.Results[0])
+						if !isC {
+							other[-2] = true
+							return
+						}
+						onOK := false
+						for _, cb := range classify.Blocks {
+							for e := 0; e < len(cb.Succs) && len(cb.Succs) == 2; e++ {
+								v, pol, okT := eng.CondTruth(cb, e)
+								if !okT || !pol || !eng.EdgeDominates(cb, e, rt.Block()) {
+									continue
+								}
+								if ex, isEx := v.(*ssa.Extract); isEx && ex.Index == 1 {
+									if lk, isLk := ex.Tuple.(*ssa.Lookup); isLk {
+										if u, isU := lk.X.(*ssa.UnOp); isU && u.X == ssa.Value(allowedG) {
+											onOK = true
+										}
+									}
+								}
+							}
+						}
+						if onOK {
+							allowed = kk
+						} else {
+							other[kk] = true
+						}
+					})
+					if allowed < 0 || other[allowed] || other[-2] {
+						verdictWhy = "the classifier does not reserve one class for identifiers found on the allow-list"
+						return
+					}
+					cell := func(s, cl int64) (next, emit int64) {
+						row := tab.elems[s]
+						if row == nil || row.elems == nil {
+							return 0, 0
+						}
+						ce := row.elems[cl]
+						if ce == nil || ce.elems == nil {
+							return 0, 0
+						}
+						if e := ce.elems[nextField]; e != nil {
+							next = e.k
+						}
+						if e := ce.elems[emitField]; e != nil {
+							emit = e.k
+						}
+						return
+					}
+					var states, classes []int64
+					seenC := map[int64]bool{}
+					for s, row := range tab.elems {
+						states = append(states, s)
+						if row != nil {
+							for cl := range row.elems {
+								if !seenC[cl] {
+									seenC[cl] = true
+									classes = append(classes, cl)
+								}
+							}
+						}
+					}
+					for cl := range other {
+						if cl >= 0 && !seenC[cl] {
+							seenC[cl] = true
+							classes = append(classes, cl)
+						}
+					}
+					if !seenC[allowed] {
+						classes = append(classes, allowed)
+					}
+					hasS0 := false
+					for _, s := range states {
+						if s == s0 {
+							hasS0 = true
+						}
+					}
+					if !hasS0 {
+						states = append(states, s0)
+					}
+					// trusted states: entered only through the allow-list column or from a trusted state
+					trusted := map[int64]bool{}
+					for _, s := range states {
+						if s != s0 {
+							trusted[s] = true
+						}
+					}
+					for changed := true; changed; {
+						changed = false
+						for _, s := range states {
+							for _, cl := range classes {
+								nx, _ := cell(s, cl)
+								if trusted[nx] && cl != allowed && !trusted[s] {
+									delete(trusted, nx)
+									changed = true
+								}
+							}
+						}
+					}
+					for _, s := range states {
+						for _, cl := range classes {
+							_, em := cell(s, cl)
+							if em == emitK && cl != allowed && !trusted[s] {
+								verdictWhy = fmt.Sprintf("table cell [state %d][class %d] writes the token's text although neither the class is the allow-listed identifier (%d) nor the state one that is only entered through it", s, cl, allowed)
+								return
+							}
+						}
+					}
+					verdictOK = true
+					verdictWhy = fmt.Sprintf("transition table: token text is written only in the allow-list column (class %d) or in states entered only through it (%d states, %d classes examined)", allowed, len(states), len(classes))
+				}
+			}
+		})
+		if verdictFound {
+			return verdictOK, verdictWhy, true
+		}
+	}
+	return false, "", false
 }
